@@ -27,7 +27,7 @@ CLAIMED = {
          "Enter ids tie run-time events to SSA functions; programs contain no reflection/cgo",
          "DESIGN.md §7 C18"),
  "C19": ("runtime monitoring: every (go-statement form x panic-handling form) case is run natively with a panic forced inside that goroutine; process death and the crash trace's 'created by' frame are compared with the may-panic findings",
-         "held on the 21 x 12 cases executed except for the listed known findings (go statements on function values and interface values): every entry function without a recovering defer whose panic killed a native run is reported with the go statement among its creators, also with -exclude of another package.",
+         "held on the 21 x 15 cases executed except for the listed known findings (go statements on function values and interface values): every entry function without a recovering defer whose panic killed a native run is reported with the go statement among its creators, also with -exclude of another package.",
          "the crash trace format of the Go runtime; obligation only when the entry syntactically defers no function that calls recover (validated by the native outcome)",
          "DESIGN.md §7 C19"),
 }
